@@ -562,7 +562,12 @@ acquire_stop(struct AcquireRuntime* self_)
         }
 
         ECHO(thread_join(&video->source.thread));
+        // Normally the source thread tells filter and sink to stop when it
+        // exits. After a start that failed half way (sink and filter already
+        // running, source never started) nobody does: make sure they stop.
+        video->filter.is_stopping = 1;
         ECHO(thread_join(&video->filter.thread));
+        video->sink.is_stopping = 1;
         ECHO(thread_join(&video->sink.thread));
         channel_accept_writes(&video->sink.in, 1);
         channel_accept_writes(&video->filter.in, 1);
